@@ -173,6 +173,8 @@ func runC07(c *Ctx) {
 	checkP2PKHSigScriptCoversHeldKeys(c, "C07-R2")
 	checkDustTestCoversSerializedOutput(c, "C07-R3")
 	checkWitnessSignaturesUseCompressedKeys(c, "C07-R2")
+	checkSumOutputValuesAddsEveryOutput(c, "C07-R1")
+	checkEstimatorArgumentKinds(c, "C07-R2")
 }
 
 // countsChange: v is (a conversion of) a phi merging len(txOuts) and len(txOuts)+1.
@@ -1516,4 +1518,180 @@ func checkWitnessSignaturesUseCompressedKeys(c *Ctx, rule string) {
 		}
 	}
 	c.Floor(rule, "witness signatures made by the signer", n, 2)
+}
+
+// checkSumOutputValuesAddsEveryOutput: the amount the inputs must cover is the sum over ALL requested outputs — whatever
+// their script is: an output that is skipped still leaves the transaction with its value, so the change is too large by
+// exactly that amount (the fee shrinks, or outputs exceed inputs). Every iteration of the summing loop adds the output's
+// value.
+func checkSumOutputValuesAddsEveryOutput(c *Ctx, rule string) {
+	p := c.P
+	fn := p.Func("wallet/txauthor", "", "SumOutputValues")
+	if fn == nil {
+		c.Unresolved(rule, "txauthor.SumOutputValues")
+		return
+	}
+	addsValue := func(ins ssa.Instruction) bool {
+		bo, ok := ins.(*ssa.BinOp)
+		if !ok || bo.Op != token.ADD {
+			return false
+		}
+		for _, o := range (&Slicer{P: p}).Origins(bo) {
+			if _, f, _, ok := fieldOf(o); ok && f == "Value" {
+				return true
+			}
+		}
+		for _, side := range []ssa.Value{bo.X, bo.Y} {
+			for _, o := range (&Slicer{P: p}).Origins(side) {
+				if _, f, _, ok := fieldOf(o); ok && f == "Value" {
+					return true
+				}
+			}
+		}
+		return false
+	}
+	n := 0
+	for _, f := range p.regionOf(fn) {
+		for _, l := range loopsOf(f) {
+			if !l.containsInstr(addsValue) {
+				continue
+			}
+			n++
+			bad := l.MustPassPerIteration(p, addsValue)
+			exits := l.EarlyExits(p)
+			c.Check(rule, "output-sum-adds-every-output", l.Header.Instrs[0].Pos(), bad == "" && len(exits) == 0,
+				"SumOutputValues can skip an output ("+bad+strings.Join(exits, "; ")+"): the target amount is short by that output's value, the change output too large by it — inputs no longer equal outputs plus fee")
+		}
+	}
+	c.Floor(rule, "loops summing the requested output values", n, 1)
+}
+
+// checkEstimatorArgumentKinds: the author counts its inputs per script kind and hands the counts to the size estimator
+// positionally (four ints in a row). Each count must arrive at the parameter of its own kind: the counter incremented in
+// the arm guarded by IsPayToScriptHash is the nested-P2WPKH count, by IsPayToWitnessPubKeyHash the P2WPKH count, by
+// IsPayToTaproot the P2TR count, the remaining arm the P2PKH count. Two swapped counts under-size one kind and
+// over-size the other by the difference of their per-input sizes (23 vB for nested vs native P2WPKH).
+func checkEstimatorArgumentKinds(c *Ctx, rule string) {
+	p := c.P
+	est := p.Func("wallet/txsizes", "", "EstimateVirtualSize")
+	if est == nil {
+		c.Unresolved(rule, "txsizes.EstimateVirtualSize")
+		return
+	}
+	predKind := map[string]string{"IsPayToScriptHash": "Nested", "IsPayToWitnessPubKeyHash": "P2WPKH", "IsPayToTaproot": "P2TR"}
+	paramKind := func(name string) string {
+		switch {
+		case strings.Contains(name, "Nested"):
+			return "Nested"
+		case strings.Contains(name, "P2WPKH"):
+			return "P2WPKH"
+		case strings.Contains(name, "P2TR"):
+			return "P2TR"
+		case strings.Contains(name, "P2PKH"):
+			return "P2PKH"
+		}
+		return ""
+	}
+	// the increments (x + 1) a counter value is built from, through merges only
+	var increments func(v ssa.Value, seen map[ssa.Value]bool) []*ssa.BinOp
+	increments = func(v ssa.Value, seen map[ssa.Value]bool) []*ssa.BinOp {
+		v = stripConv(v)
+		if seen[v] {
+			return nil
+		}
+		seen[v] = true
+		switch x := v.(type) {
+		case *ssa.Phi:
+			var out []*ssa.BinOp
+			for _, e := range x.Edges {
+				out = append(out, increments(e, seen)...)
+			}
+			return out
+		case *ssa.BinOp:
+			if k, ok := constInt(x.Y); ok && k == 1 && x.Op == token.ADD {
+				return []*ssa.BinOp{x}
+			}
+		}
+		return nil
+	}
+	// the kind of the arm an increment sits in
+	armKind := func(bo *ssa.BinOp) string {
+		b := bo.Block()
+		for hops := 0; hops < 3 && b != nil; hops++ {
+			if len(b.Preds) != 1 {
+				return ""
+			}
+			pr := b.Preds[0]
+			iff, ok := pr.Instrs[len(pr.Instrs)-1].(*ssa.If)
+			if !ok {
+				b = pr
+				continue
+			}
+			call, ok := stripConv(iff.Cond).(*ssa.Call)
+			if !ok {
+				return ""
+			}
+			k, known := predKind[calleeShort(&call.Call)]
+			if !known {
+				return ""
+			}
+			if pr.Succs[0] == b {
+				return k
+			}
+			// the arm taken when the LAST of the tests fails: every kind test was asked on the way
+			asked := map[string]bool{k: true}
+			for q := pr; len(q.Preds) == 1; {
+				pp := q.Preds[0]
+				i2, ok := pp.Instrs[len(pp.Instrs)-1].(*ssa.If)
+				if !ok || pp.Succs[1] != q {
+					break
+				}
+				c2, ok := stripConv(i2.Cond).(*ssa.Call)
+				if !ok {
+					break
+				}
+				if k2, ok := predKind[calleeShort(&c2.Call)]; ok {
+					asked[k2] = true
+				}
+				q = pp
+			}
+			if len(asked) == len(predKind) {
+				return "P2PKH"
+			}
+			return ""
+		}
+		return ""
+	}
+	n := 0
+	for _, fn := range p.FuncsIn("wallet/txauthor") {
+		for _, ci := range callsOf(fn) {
+			call, ok := ci.(*ssa.Call)
+			if !ok || !p.isCallTo(call, est) || len(call.Call.Args) != len(est.Params) {
+				continue
+			}
+			for i, prm := range est.Params {
+				want := paramKind(prm.Name())
+				if want == "" {
+					continue
+				}
+				incs := increments(call.Call.Args[i], map[ssa.Value]bool{})
+				if len(incs) == 0 {
+					continue // a constant, or a count that is not built by counting here
+				}
+				got := map[string]bool{}
+				for _, bo := range incs {
+					got[armKind(bo)] = true
+				}
+				n++
+				var gl []string
+				for k := range got {
+					gl = append(gl, k)
+				}
+				sort.Strings(gl)
+				c.Check(rule, "estimator-argument-kind:"+prm.Name(), call.Pos(), len(got) == 1 && got[want],
+					fmt.Sprintf("%s hands EstimateVirtualSize, as %s, a count that is incremented for %v inputs: each such input is sized as the other kind, the fee is below the requested rate (or above the allowed band) on the signed size", fnName(fn), prm.Name(), gl))
+			}
+		}
+	}
+	c.Floor(rule, "per-kind input counts handed to the size estimator", n, 4)
 }
